@@ -23,6 +23,7 @@ Vals == <<
 >>
 
 Big == [t |-> "num", q |-> 2000000000, big |-> TRUE]
+OddObj(ov) == Obj(<<"", "0", "a/b", "~1", "~t">>, <<ov, ov, ov, ov, ov>>)      \* (the parameter must not be called x: TLC orders record fields by first occurrence, and Atom compares f before x)
 JDocOK  == S(<<"{", "\"", "a", "\"", ":", "\"", "s", "\"", "}">>)       \* {"a":"s"}
 JDocBad == S(<<"{", "\"", "a", "\"", ":", "1", "}">>)                    \* {"a":1}
 (* extra values for the extended universe (formats etc.; no oracle there) *)
@@ -34,7 +35,10 @@ VX == << S(<<"2","0","2","0","-","0","1","-","0","1">>),
          \* strings that hold a JSON document (for the caller-defined format "x-nested"): a conforming and a violating one
          JDocOK, JDocBad, Obj(<<"x">>, <<JDocBad>>), Arr(<<JDocOK, JDocBad>>),
          \* objects the discriminator mapping of "discref" designates D for
-         Obj(<<"x", "y">>, <<S(<<"k">>), One>>), Obj(<<"x", "y">>, <<S(<<"k">>), S(<<"a">>)>>) >>
+         Obj(<<"x", "y">>, <<S(<<"k">>), One>>), Obj(<<"x", "y">>, <<S(<<"k">>), S(<<"a">>)>>),
+         \* objects whose keys are not plain identifiers (see OddKeys below; keys in byte order), at the top and below a container
+         OddObj(One), OddObj(S(<<"a">>)), Arr(<<OddObj(One)>>), Obj(<<"x">>, <<OddObj(S(<<"a">>))>>),
+         Obj(<<"a/b", "~t">>, <<Obj(<<>>, <<>>), Arr(<<One, One>>)>>) >>
 
 (* C19: the same shapes with a unique marker string at every string leaf; "Mq<d>" occurs *)
 (* in no schema text of the universe (checked by MarkerDiscipline in MC_C19).            *)
@@ -55,7 +59,9 @@ MVals == <<
    \* shape check must not start quoting): an impossible day, an impossible time, an octet > 255, two "::", bad base64
    FDate, FDateTime, FIpv4, FIpv6, FByte, Obj(<<"x">>, <<FDate>>), Arr(<<FIpv4>>),
    \* the discriminator value "k" (a mapping key of "discref": schema text, not a marker) next to a marker that violates D
-   Obj(<<"x", "y">>, <<S(<<"k">>), Mk("i")>>) >>
+   Obj(<<"x", "y">>, <<S(<<"k">>), Mk("i")>>),
+   \* a marker below a key that is not a plain identifier
+   Obj(<<"a/b", "~t">>, <<Mk("j"), Arr(<<Mk("k")>>)>>) >>
 
 Atom(f, x) == [f |-> f, x |-> x]
 
@@ -63,6 +69,32 @@ Atom(f, x) == [f |-> f, x |-> x]
 (* (so that two compositions, or a composition and any other keyword, meet in one schema)    *)
 TInt == [type |-> "integer"]
 TStr == [type |-> "string"]
+(* The SCOPE of the object keywords: "additionalProperties", "required", "minProperties" ... of one schema *)
+(* object look at the "properties" of that very object only -- never at the properties a composition       *)
+(* member (allOf / anyOf / oneOf, at any depth) declares, and a member's keywords never see the properties *)
+(* of the schema that embeds it.  So own properties are a keyword instance of the level ("props"), and     *)
+(* compositions whose members declare / close / require properties meet every object keyword at pair level.*)
+PX == [pk |-> <<"x">>, ps |-> <<TInt>>]
+PY == [pk |-> <<"y">>, ps |-> <<TInt>>]
+SAtom(f, x) == [f |-> f, x |-> x, scope |-> TRUE]
+ScopeAtoms ==
+   {SAtom("props", PX),
+    SAtom("allOf", <<PX, [allOf |-> <<PY>>]>>),               \* a member declares x, a member of a member declares y
+    SAtom("allOf", <<[apFalse |-> TRUE]>>),                   \* a member closes itself: it does not see the embedding schema's properties
+    SAtom("allOf", <<[required |-> <<"x">>], PX>>),           \* one member requires what another declares
+    SAtom("oneOf", <<[apFalse |-> TRUE] @@ PX, PY>>)}
+
+ObjKw == {"type", "nullable", "enum", "apFalse", "apSchema", "required", "minProperties", "maxProperties", "props", "pk", "ps",
+          "allOf", "anyOf", "oneOf", "not"}
+(* at the innermost level the scope atoms meet the keywords that look at an object (pairing them with string / number / *)
+(* array keywords adds nothing); a scope atom is recognised by its tag, a schema that holds one by its shape              *)
+IsScope(a) == "scope" \in DOMAIN a
+MemberObj(m) == Has(m, "apFalse") \/ Has(m, "required") \/ (Has(m, "pk") /\ m.ps = <<TInt>>)
+HasScope(s) == \/ (Has(s, "pk") /\ s.ps = <<TInt>>)
+               \/ \E f \in {"allOf", "oneOf"} : Has(s, f) /\ \E i \in DOMAIN s[f] : MemberObj(s[f][i])
+ScopeOK(s, a) == /\ IsScope(a) => DOMAIN s \subseteq ObjKw
+                 /\ HasScope(s) => a.f \in ObjKw
+
 CombAtoms ==
    {Atom("oneOf", <<TInt, TStr>>), Atom("oneOf", <<[type |-> "number"], [minimum |-> 4]>>),
     Atom("anyOf", <<TInt, TStr>>), Atom("anyOf", <<[minimum |-> 8], [minLength |-> 2]>>),
@@ -71,6 +103,7 @@ CombAtoms ==
     Atom("anyOf", <<[pk |-> <<"x">>, ps |-> <<[default |-> One]>>]>>),
     Atom("not", TStr), Atom("not", [enum |-> <<Num(4)>>]),
     Atom("items", TInt), Atom("apSchema", TStr)}
+   \cup ScopeAtoms
 
 Atoms ==
    {Atom("type", t) : t \in {"boolean", "integer", "number", "string", "array", "object"}}
@@ -123,9 +156,11 @@ CanAdd(s, a) ==
    /\ a.f \in {"oneOf", "disc", "discmap"} => ~Has(s, "discref")
    /\ a.f = "apFalse" => ~Has(s, "apSchema")      \* additionalProperties is one or the other
    /\ a.f = "apSchema" => ~Has(s, "apFalse")
+   /\ a.f = "props" => ~Has(s, "pk")
 
 With(s, a) == CASE a.f = "xmin" -> [minimum |-> a.x, exclusiveMinimum |-> TRUE] @@ s
                 [] a.f = "xmax" -> [maximum |-> a.x, exclusiveMaximum |-> TRUE] @@ s
+                [] a.f = "props" -> a.x @@ s
                 [] OTHER -> (a.f :> a.x) @@ s
 
 Wrappers(s) ==
@@ -140,4 +175,35 @@ Wrappers(s) ==
          \* ... and the same under a negation (the side must reach the negated subschema too)
          [not |-> [pk |-> <<"x">>, ps |-> <<[readOnly |-> TRUE] @@ s>>, required |-> <<"x">>]],
          [not |-> [pk |-> <<"x">>, ps |-> <<[writeOnly |-> TRUE] @@ s>>, required |-> <<"x">>]]}
+
+(* SHARING.  A schema in which one sub-schema occurs more than once.  Semantically the occurrences are     *)
+(* independent (each application of a schema to a value is judged on its own: Valid has no memory), but a   *)
+(* document can write them as references to ONE component, and then the validator holds one schema object   *)
+(* that one validation run applies several times to the same value -- first, in most of the shapes below,   *)
+(* inside a context that tolerates failure (an alternative of anyOf / oneOf, a negation) and then in one    *)
+(* that does not.  The generator emits each of these schemas twice: written out ("share" absent) and with   *)
+(* every repeated sub-schema realised as a $ref to a shared component (share = TRUE); the contract is the   *)
+(* same for both.                                                                                           *)
+ShareWrappers(s) ==
+   {[anyOf |-> <<s, s>>], [oneOf |-> <<s, s>>],
+    [not |-> s, allOf |-> <<s>>],                                    \* "not" is evaluated before the compositions
+    [oneOf |-> <<s, Empty>>, allOf |-> <<s>>],
+    [anyOf |-> <<[type |-> "boolean"], s>>, allOf |-> <<s>>],
+    [allOf |-> <<[not |-> s], [not |-> s]>>],
+    \* two alternatives that extend one base
+    [anyOf |-> <<[allOf |-> <<s, [required |-> <<"y">>]>>], [allOf |-> <<s>>]>>],
+    [oneOf |-> <<[allOf |-> <<s, [required |-> <<"y">>]>>], [allOf |-> <<s, [maxProperties |-> 1]>>]>>],
+    \* ... below a container, so that the repeated application happens to a child of the validated value
+    [items |-> [anyOf |-> <<s, s>>]], [pk |-> <<"x">>, ps |-> <<[not |-> s, allOf |-> <<s>>]>>],
+    \* one schema object applied to different values (no repetition on one value: must be as if written out)
+    [pk |-> <<"x", "y">>, ps |-> <<s, s>>], [items |-> s, apSchema |-> s]}
+
+(* PROPERTY NAMES that are not plain identifiers: characters that are structure in a JSON pointer ("/" and *)
+(* "~", and "~1" which reads as an escape), the empty name, a name that reads as an array index.  A key is  *)
+(* a key: properties / additionalProperties / required address it verbatim, and the path of an error holds  *)
+(* it verbatim (C12: every segment of JSONPointer() is a key or index of the validated value).             *)
+OddKeys == {"", "0", "a/b", "~1", "~t"}
+KeyWrappers(s) ==
+   {[pk |-> <<k>>, ps |-> <<s>>] : k \in OddKeys}
+   \cup {[pk |-> <<"a/b", "~t">>, ps |-> <<s, s>>, required |-> <<"a/b", "q/r">>]}
 =============================================================================
